@@ -502,6 +502,7 @@ type world struct {
 	clamped    map[int]map[uint64]bool // per query: blocks cut out by a clamped pointer lookup
 	allocBomb  map[int]string          // per query: stopped before a wrapped-around allocation
 	startedStale bool // see startFM
+	indexWrites  int  // index write units so far (did the index change under a query?)
 	maxTarget  uint64 // highest target head handed to the indexer since it was last known idle
 	pulledDown map[uint64]uint32 // blocks that became "first indexed block" by the range being pulled down -> MapsFirst+1 at that moment
 }
@@ -934,6 +935,7 @@ func (w *world) startFM(view *filtermaps.ChainView) {
 			w.pulledDown[rs.BlocksFirst] = rs.MapsFirst + 1
 		}
 		w.lastRange, w.haveRange = rs, err == nil && ok
+		w.indexWrites++
 		w.mu.Unlock()
 		if trace {
 			k := op.Key
@@ -1126,6 +1128,7 @@ func (w *world) runQuery(qid int, spec QuerySpec, phase string) {
 	canon := append([]*blockRec{}, w.canon...)
 	w.nextQ = qid
 	w.getLogs[qid] = 0
+	writesAtStart := w.indexWrites
 	w.mu.Unlock()
 	var want []*types.Log
 	for n := first; n <= last; n++ {
@@ -1200,6 +1203,18 @@ func (w *world) runQuery(qid int, spec QuerySpec, phase string) {
 				// is non-empty, so it reads the deleted pointer of the block itself
 				v.Key = "query-error:lv-pointer-deleted-by-head-revert-empty-range"
 				v.Msg += fmt.Sprintf(" (indexed block range is empty [%d,%d) now: the pointer of block %d was deleted when the index head was reverted while the query ran)", r.BlocksFirst, r.BlocksAfterLast, n)
+			}
+		}
+		// third recognised class: a potential match is resolved (GetLogByLvIndex ->
+		// getLogByLvIndex) while the index is being reverted / tail-unindexed: the block search
+		// is clamped to blocks.First(), which then lies above the last block of the map, and
+		// the pointer of that first block (deleted by the head revert, not yet re-written) is read
+		if strings.Contains(err.Error(), "failed to retrieve log at index") && strings.Contains(err.Error(), "failed to retrieve log value pointer of block") && strings.HasSuffix(err.Error(), "not found") {
+			w.mu.Lock()
+			changed := w.indexWrites > writesAtStart
+			w.mu.Unlock()
+			if changed {
+				v.Key = "query-error:log-lookup-reads-deleted-lv-pointer-during-index-revert"
 			}
 		}
 		if simcore.IsKnown(v.Key) {
